@@ -5,6 +5,7 @@ CONSTANTS
   Thr = 2
   InitBal = 9
   PersistUnderLock = FALSE
+  RefreshReadsUnderLock = TRUE
   Amounts <- JAmounts
   MaxOps = 0
 INVARIANT Report
